@@ -420,6 +420,14 @@ impl Property for C03 {
         ]
     }
 
+    fn components(&self) -> serde_json::Value {
+        json!({
+            "real": ["/repo/src/optimizer.rs through its public API (create / validate / update)", "network-level variant: Network::update, Feedback::update, forward/backward of /repo/src"],
+            "stub": ["SystemTime in Tensor::random (simulated clock; network-level variant only)", "HashMap hasher (seeded)"],
+            "not_involved": ["rayon / rayon-core: no parallel call is made by this property's workload; the simulated nondeterminism is the seeded interleaving of per-slot update streams"]
+        })
+    }
+
     fn runs(&self, tier: Tier) -> u64 {
         match tier {
             Tier::Quick => 30000,
